@@ -257,6 +257,7 @@ pub fn src_poll(id: u32, addr: usize, cx: &mut Context<'_>) -> Poll<Option<Tok>>
         }
         let poll_no = w.poll_no;
         let c = &mut w.children[id as usize];
+        let c_wake = c.beh.wake_on_complete;
         if c.avail > 0 {
             if c.avail != INF {
                 c.avail -= 1;
@@ -270,10 +271,12 @@ pub fn src_poll(id: u32, addr: usize, cx: &mut Context<'_>) -> Poll<Option<Tok>>
             w.owed_polls.insert((poll_no, id));
             w.merge_items += 1;
             w.pulled_call += 1;
-            Act::Item {
-                seq,
-                wake: false,
+            // some sources wake themselves in every poll that produces something
+            let wake = c_wake && !w.frozen;
+            if wake {
+                w.faults[FA_WOC] += 1;
             }
+            Act::Item { seq, wake }
         } else if c.closed {
             c.completed_at = Some(poll_no);
             let wake = c.beh.wake_on_complete;
@@ -291,7 +294,11 @@ pub fn src_poll(id: u32, addr: usize, cx: &mut Context<'_>) -> Poll<Option<Tok>>
     match act {
         Act::Ignore => Poll::Pending,
         Act::Panic => unreachable!(),
-        Act::Item { seq, .. } => {
+        Act::Item { seq, wake } => {
+            if wake {
+                with(|w| w.note_invocation(id));
+                cx.waker().wake_by_ref();
+            }
             let tok = with(|w| {
                 w.log(0x12, ((id as u64) << 32) | seq as u64);
                 w.new_tok(id, seq, K_ITEM)
